@@ -375,7 +375,12 @@ class Buffer:
         >>> c.position
         4
         """
-        c = self.__init(self.__empty(), self.peek().position)
+        if self.hasNext():
+            position = self.peek().position
+        else:  # nothing left to scan: an empty result at the end of input
+            last = self.peek(-1) if self.__i > 0 else None
+            position = last.position + len(last) if last is not None else 0
+        c = self.__init(self.__empty(), position)
         while self.hasNext() and not condition(self.peek() if peek else self):
             c += self.forward(1)
         return c
